@@ -1070,7 +1070,12 @@ pub fn c09_parts(quick: bool) -> (Vec<EwSpec>, Vec<Scenario>) {
         script.push(if who == 0 { after_c(0, 16, Act::CDisconnect(0)) } else { after_s(0, 16, Act::SDisconnect(0)) });
         let mut env = EwEnv::basic(if quick { 6 } else { 9 }, 140);
         env.dev_start = 16; env.fates = DF_BASIC; env.deltas = &[100, 0, 2000]; env.fair_delta = 100;
-        scs.push(sc(&format!("C09.warm.{}", if who == 0 { "client" } else { "server" }), &cfg, script, env, d, EO_C09 | EO_C08));
+        scs.push(sc(&format!("C09.warm.{}", if who == 0 { "client" } else { "server" }), &cfg, script.clone(), env.clone(), d, EO_C09 | EO_C08));
+        // the same with four packets that each fill a frame, Reliable and Unreliable alternating: frames of both kinds leave in one flush
+        let mut s2: Vec<EwOp> = script[..2].to_vec();
+        for (chn, m, sz) in [(1u8, Reliable, 1448usize), (2, Unreliable, 1448), (1, Reliable, 1447), (2, Unreliable, 1446)] { s2.push(if who == 0 { after_c(0, 16, Act::CSend(0, chn, m, sz)) } else { after_s(0, 16, Act::SSend(0, chn, m, sz)) }); }
+        s2.push(if who == 0 { after_c(0, 16, Act::CDisconnect(0)) } else { after_s(0, 16, Act::SDisconnect(0)) });
+        scs.push(sc(&format!("C09.warm-mixed-full-frames.{}", if who == 0 { "client" } else { "server" }), &cfg, s2, env, d, EO_C09 | EO_C08));
     }
     // both applications close at (nearly) the same time: the two disconnect requests cross, in every combination of flushing / immediate
     for (sname, c_at, s_at) in [("same-round", 4usize, 4usize), ("server-first", 5, 4), ("client-first", 4, 5), ("server-two-ahead", 6, 4)] {
